@@ -140,3 +140,48 @@ func init() {
 		return m.Cur == 0 && m.Latest == 0
 	}
 }
+
+func init() {
+	// The persisted index has to be (re)built (never built, or its label names another version than the
+	// latest) at a moment when an OLDER version is being loaded: the index is then built from that older
+	// version but labelled with the latest one, and later serves stale answers.
+	matchers["c07_index_built_from_older_version"] = func(c *MatchCtx) bool {
+		fast := c.Cfg.Fast
+		label := int64(-1) // version the persisted index was last labelled with (-1: never built)
+		hit := false
+		modelTrace(c.Cfg, c.Hist, func(i int, m *Model, op Op) {
+			switch op.Kind {
+			case OpSave:
+				if fast && !m.Has(m.WorkingVersion()) {
+					label = m.WorkingVersion()
+				}
+			case OpReopen:
+				fast = op.Fast
+				if fast && m.Latest > 0 && label != m.Latest {
+					if op.Ver > 0 && op.Ver != m.Latest && m.Has(op.Ver) {
+						hit = true
+					}
+					label = m.Latest
+				}
+			case OpLoadVersion:
+				if fast && m.Latest > 0 && label != m.Latest && m.Has(op.Ver) {
+					if op.Ver > 0 && op.Ver != m.Latest {
+						hit = true
+					}
+					label = m.Latest
+				}
+			case OpLVFO, OpDelFrom:
+				if m.Has(op.Ver) && fast {
+					label = op.Ver
+				}
+			case OpImport:
+				if fast {
+					label = op.Ver
+				} else {
+					label = -1
+				}
+			}
+		})
+		return hit
+	}
+}
